@@ -17,4 +17,16 @@ MUTANTS = [
      "                self._evaluation_counter.maximum_is_reached\n            ):\n                raise MaxIterReachedException\n\n            output_value = self._compute_output(input_value)"),
     ("C03", "algos/problem_function.py", r"            jac_u = self._unnormalize_grad\(jac_n\)", "            jac_u = jac_n"),
     ("C03", "algos/problem_function.py", r"        for func in self._output_evaluation_sequence:\n            input_value = func\(input_value\)", "        for func in self._output_evaluation_sequence:\n            func(input_value)"),
+    # ---- C02 DesignSpace
+    ("C02", "algos/design_space.py", r"indices.stop - size,\n                \)\n\n        del self.normalize", "indices.stop,\n                )\n\n        del self.normalize"),
+    ("C02", "algos/design_space.py", r"        del self.normalize\[name\]\n", ""),
+    ("C02", "algos/design_space.py", r"            if variable_name == name:\n                variable_is_reached = True\n            elif variable_is_reached:", "            if variable_name == name:\n                variable_is_reached = True\n            else:"),
+    ("C02", "algos/design_space.py", r"            dictionary.clear\(\)\n            dictionary.update\(renamed_dictionary\)", "            del dictionary[current_name]\n            dictionary[new_name] = renamed_dictionary[new_name]"),
+    ("C02", "algos/design_space.py", r"        self.__norm_data_is_computed = False\n        # The normalized current value depends on the bounds.\n        self.__clear_dependent_data\(\)\n\n    def set_upper", "        self.__norm_data_is_computed = False\n\n    def set_upper"),
+    ("C02", "algos/design_space.py", r"            out\[\.\.\., norm_inds\] -= self.__lower_bounds_array\[norm_inds\]", "            out[..., norm_inds] += self.__lower_bounds_array[norm_inds]"),
+    ("C02", "algos/design_space.py", r"            out\[\.\.\., norm_inds\] \*= self._norm_factor_inv\[norm_inds\]", "            out[..., norm_inds] *= self._norm_factor[norm_inds]"),
+    ("C02", "algos/design_space.py", r"            use_out = False\n            out = x_vect.copy\(\)", "            use_out = False\n            out = x_vect"),
+    ("C02", "algos/design_space.py", r"            out\[\.\.\., norm_inds\] \+= lower_bounds\[norm_inds\]", "            out[..., norm_inds] -= lower_bounds[norm_inds]"),
+    ("C02", "algos/design_space.py", r"        rounded_x_vect\[\.\.\., are_integers\] = np_round\(x_vect\[\.\.\., are_integers\]\)", "        rounded_x_vect[..., are_integers] = x_vect[..., are_integers]"),
+    ("C02", "algos/design_space.py", r"            or self.__current_value.keys\(\) != self._variables.keys\(\)\n", ""),
 ]
